@@ -61,6 +61,8 @@ func init() {
 			"\tn, scanned := 0, 0\n\tfor n < len(s.handshakeBuffer) {\n\t\tnn, err := stream.Read(s.handshakeBuffer[n:])\n\t\tif err != nil {\n\t\t\treturn err\n\t\t}\n\t\tn += nn\n\t\tif bytes.Contains(s.handshakeBuffer[scanned:n], []byte(\"\\r\\n\\r\\n\")) {\n\t\t\tbreak\n\t\t}\n\t\tscanned = n\n\t}", "C18-R5"},
 		mutant{"failed handshake closes the connection inside RawConn.Control", "codec/websocket/stream.go",
 			"\t\t\tif err != nil {\n\t\t\t\tfailed, s.conn = s.conn, nil\n\t\t\t}\n", "\t\t\tif err != nil {\n\t\t\t\t_ = s.CloseNextLayer()\n\t\t\t}\n", "C18-R7"},
+		mutant{"reset skips the buffers when no session was established", "codec/websocket/stream.go",
+			"\ts.conn = nil\n\ts.src.Reset()", "\ts.conn = nil\n\tif s.stream == nil {\n\t\treturn\n\t}\n\ts.src.Reset()", "C18-R6"},
 		mutant{"pending frames survive a re-handshake", "codec/websocket/stream.go",
 			"\tfor _, f := range s.pendingFrames {\n\t\ts.releaseFrame(f)\n\t}\n\ts.pendingFrames = s.pendingFrames[:0]\n}", "}", "C18-R6"},
 		mutant{"read buffer survives a re-handshake", "codec/websocket/stream.go",
@@ -630,11 +632,16 @@ func runC18(c *Ctx) {
 			}
 		}
 		reinit := map[*types.Var]bool{}
+		reinitInInit := map[*types.Var]bool{}
 		for _, fn := range []*ssa.Function{w.reset, initM} {
+			fn := fn
 			for i := 0; i < st.NumFields(); i++ {
 				f := st.Field(i)
 				if len(storesTo(fn, f)) > 0 {
 					reinit[f] = true
+					if fn == initM {
+						reinitInInit[f] = true
+					}
 				}
 			}
 			// x.Reset() on a field counts
@@ -645,6 +652,9 @@ func runC18(c *Ctx) {
 				}
 				if f := loadedField(call.Call.Args[0]); f != nil {
 					reinit[f] = true
+					if fn == initM {
+						reinitInInit[f] = true
+					}
 				}
 			})
 		}
@@ -662,6 +672,21 @@ func runC18(c *Ctx) {
 				continue
 			}
 			seen[f] = true
+			if reinit[f] && !reinitInInit[f] {
+				f := f
+				okp, why := mustPassAt(w.reset.Blocks[0], 0, func(in ssa.Instruction) bool {
+					if st, ok := in.(*ssa.Store); ok {
+						if fv, _ := fieldAddrOf(st.Addr); fv == f {
+							return true
+						}
+					}
+					if call, ok := in.(*ssa.Call); ok && call.Call.StaticCallee() != nil && call.Call.StaticCallee().Name() == "Reset" && len(call.Call.Args) > 0 && loadedField(call.Call.Args[0]) == f {
+						return true
+					}
+					return false
+				})
+				c.check(okp, w.reset, "field "+f.Name()+" always", w.reset.Pos(), "re-initialised on every path of reset()", "reset() skips the re-initialisation of "+f.Name()+" on some path ("+why+"): after a failed handshake the bytes / frames of the previous attempt are still there when the stream is used again")
+			}
 			c.check(reinit[f], w.reset, "field "+f.Name(), w.reset.Pos(), "re-initialised for the next session", "field "+f.Name()+" is written during a session (by "+strings.Join(written[f], ", ")+") but neither reset() nor init() re-initialises it: state of the previous connection leaks into the next handshake")
 		}
 	}
